@@ -216,11 +216,18 @@ fn run_tamper(w: &World, spec: &Spec, hop: usize, all_bits: bool, only: Option<F
 	let mut o = ItemOut::default();
 	let c = match build_case(w, spec) {
 		Some(c) if c.fits() && c.peel_admissible => c,
-		_ => cli::die(&format!("tamper case {} is not constructible", spec.id())),
+		_ => {
+			o.stats.inc("tamper_untampered_walk_failed");
+			return o;
+		},
 	};
 	let packet = match construct(w, &c) {
 		Ok((p, _, _)) => p,
-		Err(e) => cli::die(&format!("tamper case {}: {}", spec.id(), e)),
+		Err(_) => {
+			// the delivery family reports this (fitting-route-refused)
+			o.stats.inc("tamper_untampered_walk_failed");
+			return o;
+		},
 	};
 	let mut mis = Vec::new();
 	let walk = match walk_peel(w, &c, &packet, c.exp_in[0], &mut mis) {
@@ -898,9 +905,12 @@ fn main() {
 		guards.push(("20 fulfil hold times decoded", st.get("fulfil_with_20_hold_times") > 0));
 		guards.push(("corrupted fulfil data was truncated", st.get("fulfil_tamper_truncated") > 0));
 	}
-	for (name, ok) in guards.iter() {
-		if !ok {
-			cli::die(&format!("vacuity guard failed: {}", name));
+	// a violation is a verdict and takes precedence: broken code may legitimately starve a guard
+	if agg.violations.is_empty() {
+		for (name, ok) in guards.iter() {
+			if !ok {
+				cli::die(&format!("vacuity guard failed: {}", name));
+			}
 		}
 	}
 
